@@ -90,6 +90,10 @@ class Fmt(object):
         """-> list of (label, driver build request, suffix bytes[, prefix bytes])"""
         return []
 
+    def extra_builder_checks(self, rng, scale):
+        """-> list of (driver build request, bytes an independent builder of headers_more gives, case dict with 'fmt')"""
+        return []
+
     def raw(self, rng, scale):
         """-> list of (label, bytes) outside the specification side"""
         return []
@@ -817,6 +821,49 @@ class AacFmt(Fmt):
             id_, pa, profile, sfi, priv, cc, orig, home, ",".join(str(f[0]) for f in frames), ",".join(str(f[1]) for f in frames),
             ",".join(str(f[2]) for f in frames), ",".join(hx(f[3]) for f in frames)))
 
+    @staticmethod
+    def pce_args(sfx, tag=0, ot=1, sfi=4, front=(16,), side=(), back=(), lfe=(), assoc=(), cc=(), mono=None, stereo=None, matrix=None, comment=b""):
+        """elements: is_cpe * 16 + tag; cc: ind_sw * 16 + tag"""
+        def l(x):
+            return ",".join(str(v) for v in x) if x else "-"
+        o = lambda v: -1 if v is None else v
+        return ("ptag%s=%d pot%s=%d psfi%s=%d pfront%s=%s pside%s=%s pback%s=%s plfe%s=%s passoc%s=%s pcc%s=%s pmono%s=%d pstereo%s=%d pmatrix%s=%d pcomment%s=%s" % (
+            sfx, tag, sfx, ot, sfx, sfi, sfx, l(front), sfx, l(side), sfx, l(back), sfx, l(lfe), sfx, l(assoc), sfx, l(cc), sfx, o(mono), sfx, o(stereo),
+            sfx, o(matrix), sfx, hx(comment)))
+
+    def line_adif(self, cid=None, oc=0, home=0, bt=1, bitrate=128000, pces=None, payload=b"\x21" * 50):
+        pces = pces if pces is not None else [(0, dict())]
+        parts = ["infoa op=build kind=ADIF cid=%s oc=%d home=%d bt=%d bitrate=%d n=%d payload=%s" % (
+            "none" if cid is None else hx(cid), oc, home, bt, bitrate, len(pces), hx(payload))]
+        for i, (full, kw) in enumerate(pces):
+            parts.append("full%d=%d %s" % (i, full, self.pce_args(str(i), **kw)))
+        return " ".join(parts)
+
+    def extra_builder_checks(self, rng, scale):
+        """the program_config_element of headers_more (written independently from ISO/IEC 13818-7 / 14496-3) against Spec.Aac.Pce.bits"""
+        H = hm()
+        out = []
+        layouts = [("S", "", "", 0), ("C", "", "", 0), ("SC", "", "C", 1), ("", "", "", 0), ("SCC", "S", "CC", 3), ("C" * 15, "S" * 15, "C" * 15, 2),
+                   ("S", "C", "", 1), ("", "", "S", 0)]
+        for front, side, back, lfe in layouts:
+            for pos in (0, 1, 3, 7, 8, 12, 35):
+                for sfi, ot in ((4, 1), (0, 0), (12, 3), (rng.randrange(13), rng.randrange(4))):
+                    w = H._BW()
+                    if pos:
+                        w.put(0, pos)
+                    H._pce_bits(w, sfi, front, side, back, lfe, ot)
+                    tag = 0
+                    groups = []
+                    for grp in (front, side, back):
+                        g = []
+                        for e in grp:
+                            g.append((16 if e == "C" else 0) + (tag & 15))
+                            tag += 1
+                        groups.append(g)
+                    line = "infoa op=build kind=PCE pos=%d %s" % (pos, self.pce_args("0", 0, ot, sfi, groups[0], groups[1], groups[2], list(range(lfe))))
+                    out.append((line, w.bytes(), dict(fmt="PCE", front=front, side=side, back=back, lfe=lfe, pos=pos, sfi=sfi, ot=ot)))
+        return out
+
     def spec_line(self, kind, p):
         data = hm().BUILDERS[kind](p)[0]
         frames = []
@@ -857,6 +904,28 @@ class AacFmt(Fmt):
         for _ in range(20 * scale):
             add("adts-random", id_=rng.randrange(2), pa=rng.randrange(2), profile=rng.randrange(4), sfi=rng.randrange(13), priv=rng.randrange(2), cc=rng.randrange(8),
                 orig=rng.randrange(2), home=rng.randrange(2), n=rng.randrange(3, 20), cb=rng.randrange(4), bf=rng.randrange(1 << 11), nb=rng.randrange(4), blen=rng.randrange(16, 200))
+        # ADIF through the Lean builder
+        def adif(label, **kw):
+            out.append((label, self.line_adif(**kw), b""))
+
+        pcs = [dict(), dict(front=(0,), sfi=0), dict(front=(0, 17), back=(18,), lfe=(0,), sfi=3, comment=b"abc"),
+               dict(front=tuple([16 + i for i in range(15)]), side=tuple(range(15)), back=tuple([16 + i for i in range(15)]), lfe=(1, 2, 3),
+                    assoc=tuple(range(7)), cc=tuple([16 + i for i in range(15)]), mono=5, stereo=9, matrix=7, comment=bytes(range(255)), tag=15, ot=3, sfi=12),
+               dict(front=(), sfi=7), dict(front=(16,), mono=0), dict(front=(16,), stereo=15, matrix=0, assoc=(3,), cc=(1,))]
+        for pc in pcs:
+            for bt in (0, 1):
+                for cid in (None, bytes(range(9))):
+                    adif("adif-pce", bt=bt, cid=cid, pces=[(rng.randrange(1 << 20), pc)], oc=rng.randrange(2), home=rng.randrange(2))
+        for br in edges(23):
+            adif("adif-bitrate", bitrate=br)
+        for n in (2, 3, 16):
+            for bt in (0, 1):
+                adif("adif-npce", bt=bt, pces=[(0xFFFFF, pcs[i % len(pcs)]) for i in range(n)])
+        for sfi in range(16):
+            adif("adif-sfi", pces=[(0, dict(sfi=sfi))])
+        for _ in range(10 * scale):
+            adif("adif-random", bt=rng.randrange(2), bitrate=rng.randrange(1 << 23), cid=rng.choice([None, rbytes(rng, 9)]),
+                 pces=[(rng.randrange(1 << 20), rng.choice(pcs)) for _ in range(rng.randrange(1, 4))], payload=rbytes(rng, rng.randrange(0, 60)))
         return out
 
     def raw(self, rng, scale):
@@ -1185,6 +1254,8 @@ def run_format(ctx, fmt, only=None):
             line = fmt.spec_line(kind, params)
             if line is not None:
                 build_reqs.append((line, data, dict(params, fmt=kind)))
+    for line, data, case in fmt.extra_builder_checks(rng, scale):
+        build_reqs.append((line, data, case))
     # 2. lattices through the Lean builder
     lat = fmt.lattice(rng, scale)
     lines = [r[0] for r in build_reqs] + [l[1] for l in lat]
@@ -1198,7 +1269,7 @@ def run_format(ctx, fmt, only=None):
         ctx.hist["infoa:%s:builder-vs-headers_more" % fmt.name] += 1
         got = bytes.fromhex(d.get("v", "")) if d.get("v", "-") != "-" else b""
         want = fmt.spec_len(case["fmt"], case, data)
-        if st != "ok" or not data.startswith(got) or (want is not None and len(got) != want) or len(got) < 7:
+        if st != "ok" or not data.startswith(got) or (want is not None and len(got) != want) or (want is None and len(got) < 7):
             ctx.disagree("spec builder differs from headers_more (%s)" % fmt.name, case, model=ans[:300], impl=hx(data)[:300])
     sample_valid = None
     for item, ans in zip(lat, answers[len(build_reqs):]):
